@@ -170,12 +170,13 @@ Definition left_o (r : Z) (o : output) : list msg :=
 Definition subm (r : Z) (tr : list output) : list msg := flat_map (subm_o r) tr.
 (* confirmable messages to r that left the queue (first transmission, or discarded), in order *)
 Definition left (r : Z) (tr : list output) : list msg := flat_map (left_o r) tr.
-Definition is_crash (o : output) : bool := match o with Crash _ => true | _ => false end.
+(* an internal error of the message layer; the TypeError of pipe.py (finding C14-R3) is raised outside it *)
+Definition is_crash (o : output) : bool := match o with Crash TypeError => false | Crash _ => true | _ => false end.
 Definition nocrash (tr : list output) : bool := forallb (fun o => negb (is_crash o)) tr.
 (* outputs that say nothing about queues *)
 Definition neutral (o : output) : bool :=
   match o with
-  | Tx _ true | TxEmpty _ _ _ | Fired _ _ | Deliver _ | Fail _ _ | Cancelled _ | Monitor _ => true
+  | Tx _ true | TxEmpty _ _ _ | Fired _ _ | Deliver _ | Fail _ _ | Cancelled _ | Monitor _ | Ended _ | Crash TypeError => true
   | _ => false
   end.
 
@@ -185,7 +186,7 @@ Lemma nocrash_app a b : nocrash (a ++ b) = nocrash a && nocrash b. Proof. apply 
 Lemma neutral_logs r o : forallb neutral o = true -> subm r o = [] /\ left r o = [] /\ nocrash o = true.
 Proof. induction o as [|x o IH]; [cbn; auto|]. cbn [forallb]. intros H. apply andb_prop in H. destruct H as [H1 H2].
   destruct (IH H2) as (A & B & C). unfold subm, left, nocrash in *. cbn [flat_map forallb]. rewrite A, B, C.
-  destruct x; try discriminate; cbn; auto. destruct retr; [cbn; auto|discriminate]. Qed.
+  destruct x; try discriminate; cbn; auto; [destruct retr; [cbn; auto|discriminate]|destruct e; try discriminate; cbn; auto]. Qed.
 
 Lemma left_dropped_same r q : Forall (fun m => con_to r m = true) q -> left r (map Dropped q) = q.
 Proof. induction 1 as [|m q H _ IH]; [reflexivity|]. unfold left in *. cbn. rewrite H, IH. reflexivity. Qed.
@@ -228,12 +229,14 @@ Proof. intros Hb Hn (A & B & C). destruct (neutral_logs 0 o1 Hn) as (_ & _ & N3)
 (* ================================================================ the functions, one by one *)
 Lemma call_monitor_frame w s : active_exchanges (fst (call_monitor w s)) = active_exchanges s /\
   backlogs (fst (call_monitor w s)) = backlogs s /\ forallb neutral (snd (call_monitor w s)) = true.
-Proof. unfold call_monitor. destruct (m_sub w); [destruct (existsb (key_of w) (outgoing_requests s))|]; cbn; auto. Qed.
+Proof. unfold call_monitor, stop_responder. destruct (m_sub w); [destruct (existsb (key_of w) (outgoing_requests s))| |destruct (alive k s)]; cbn; auto. Qed.
 
 Lemma tm_dispatch_error_frame e r s : active_exchanges (fst (tm_dispatch_error e r s)) = active_exchanges s /\
   backlogs (fst (tm_dispatch_error e r s)) = backlogs s /\ forallb neutral (snd (tm_dispatch_error e r s)) = true.
-Proof. unfold tm_dispatch_error. cbn. split; [reflexivity|]. split; [reflexivity|].
-  induction (filter _ (outgoing_requests s)); [reflexivity|]. cbn. assumption. Qed.
+Proof. unfold tm_dispatch_error. cbn [fst snd active_exchanges backlogs upd_in upd_out]. split; [reflexivity|]. split; [reflexivity|].
+  rewrite forallb_app. apply andb_true_intro. split.
+  - induction (filter _ (outgoing_requests s)); [reflexivity|]. cbn. assumption.
+  - induction (filter _ (incoming_requests s)); [reflexivity|]. cbn. assumption. Qed.
 
 Lemma tm_process_response_frame r tok s : active_exchanges (fst (fst (tm_process_response r tok s))) = active_exchanges s /\
   backlogs (fst (fst (tm_process_response r tok s))) = backlogs s /\ forallb neutral (snd (fst (tm_process_response r tok s))) = true.
@@ -311,7 +314,7 @@ Lemma send_message_trans who r mt code tok maxre s : Inv s ->
   Trans s (snd (send_message who r mt code tok maxre s)) (fst (send_message who r mt code tok maxre s)).
 Proof. intros HI. unfold send_message, next_message_id.
   set (s0 := {| now := now s; seq := seq s; message_id := Z.land 65535 (1 + message_id s); token := token s; rand := rand s;
-                active_exchanges := active_exchanges s; backlogs := backlogs s; outgoing_requests := outgoing_requests s |}).
+                active_exchanges := active_exchanges s; backlogs := backlogs s; outgoing_requests := outgoing_requests s; incoming_requests := incoming_requests s |}).
   set (m := {| m_sub := who; m_remote := r; m_mtype := resolve_mtype mt; m_code := code; m_mid := message_id s; m_tok := tok; m_maxre := maxre |}).
   assert (HI0 : Inv s0) by (apply (inv_ext s); [reflexivity|reflexivity|exact HI]).
   apply (trans_pre_ext s0); [reflexivity|].
@@ -448,6 +451,22 @@ Proof. intros HI. unfold fire. destruct (min_timer (active_exchanges s)) as [x|]
   destruct (retransmit x s0) as [s1 o1]. cbn [fst snd] in *.
   apply (trans_neutral_pre s [Fired (m_remote (x_msg x)) (m_mid (x_msg x))] s0 o1 s1); [reflexivity|reflexivity|exact T]. Qed.
 
+Lemma stop_responder_frame k s : active_exchanges (fst (stop_responder k s)) = active_exchanges s /\
+  backlogs (fst (stop_responder k s)) = backlogs s /\ outgoing_requests (fst (stop_responder k s)) = outgoing_requests s /\
+  forallb neutral (snd (stop_responder k s)) = true.
+Proof. unfold stop_responder. destruct (alive k s); cbn; auto. Qed.
+
+(* a responder's response: whatever [send] is, as long as it is a transition *)
+Lemma respond_trans send : (forall who r mt code tok maxre s, Inv s -> Trans s (snd (send who r mt code tok maxre s)) (fst (send who r mt code tok maxre s))) ->
+  forall j k last maxre s, Inv s -> Trans s (snd (respond send j k last maxre s)) (fst (respond send j k last maxre s)).
+Proof. intros Hs j k last maxre s HI. unfold respond. destruct (find _ (incoming_requests s)) as [v|]; [|apply trans_refl; exact HI].
+  pose proof (Hs (Resp j k) (v_remote v) (if v_mtype v =? 1 then 7 else 8) 69 (v_tok v) maxre s HI) as T.
+  destruct (send _ _ _ _ _ _ s) as [s1 o1]. cbn [fst snd] in T.
+  destruct last; destruct (alive k s1); cbn [fst snd]; try exact T.
+  - destruct (stop_responder_frame k s1) as (A & B & _ & N). destruct (stop_responder k s1) as [s2 o2]. cbn [fst snd] in *.
+    apply (trans_neutral s o1 s1); assumption.
+  - apply (trans_neutral s o1 s1); [exact T|reflexivity|reflexivity|reflexivity]. Qed.
+
 Theorem step_trans s e : Inv s -> Trans s (snd (step s e)) (fst (step s e)).
 Proof. intros HI. destruct e; cbn [step].
   - apply tm_request_trans; exact HI.
@@ -462,7 +481,11 @@ Proof. intros HI. destruct e; cbn [step].
     + intros r. cbn. rewrite app_nil_r. unfold backlog_of, advance. destruct (d <? 0); [reflexivity|].
       destruct (min_timer (active_exchanges s)) as [x|]; [destruct (x_due x <=? now s + d)|]; reflexivity.
   - destruct (outstanding q s); cbn [fst snd]; [|apply trans_refl; exact HI].
-    apply (trans_neutral s [] s [Cancelled q] (forget_request q s)); [apply trans_refl; exact HI|reflexivity|reflexivity|reflexivity]. Qed.
+    apply (trans_neutral s [] s [Cancelled q] (forget_request q s)); [apply trans_refl; exact HI|reflexivity|reflexivity|reflexivity].
+  - unfold tm_process_request. cbn [fst snd].
+    apply (trans_neutral s [] s); [apply trans_refl; exact HI|reflexivity|reflexivity|].
+    induction (filter _ (incoming_requests s)); [reflexivity|]. cbn. assumption.
+  - apply respond_trans; [intros; apply send_message_trans; assumption|exact HI]. Qed.
 
 Lemma inv_init a b c : Inv (init a b c).
 Proof. intros r. unfold Good, count_r, backlog_of. cbn. split; [lia|]. split; [split; [congruence|discriminate]|constructor]. Qed.
@@ -486,9 +509,12 @@ Theorem reachable_fifo a b c es r :
   subm r (concat (snd (run (init a b c) es))) = left r (concat (snd (run (init a b c) es))) ++ backlog_of r (fst (run (init a b c) es)).
 Proof. apply (run_inv_fifo es (init a b c) []); [apply inv_init|reflexivity|reflexivity]. Qed.
 
-Theorem reachable_nocrash a b c es e : ~ In (Crash e) (concat (snd (run (init a b c) es))).
-Proof. intros H. assert (N : nocrash (concat (snd (run (init a b c) es))) = true) by (apply (run_inv_fifo es (init a b c) []); [apply inv_init|reflexivity|reflexivity]).
-  unfold nocrash in N. rewrite forallb_forall in N. specialize (N _ H). discriminate. Qed.
+Lemma nocrash_in o e : nocrash o = true -> e <> TypeError -> ~ In (Crash e) o.
+Proof. intros N He H. unfold nocrash in N. rewrite forallb_forall in N. specialize (N _ H). destruct e; try discriminate. congruence. Qed.
+
+Theorem reachable_nocrash a b c es e : e <> TypeError -> ~ In (Crash e) (concat (snd (run (init a b c) es))).
+Proof. intros He H. assert (N : nocrash (concat (snd (run (init a b c) es))) = true) by (apply (run_inv_fifo es (init a b c) []); [apply inv_init|reflexivity|reflexivity]).
+  exact (nocrash_in _ e N He H). Qed.
 
 Theorem one_exchange_per_remote a b c es r :
   let s := fst (run (init a b c) es) in
